@@ -450,6 +450,12 @@ def r4_eq(repo, rep, cls):
   good = False
   for r in final:
     c = r.value
+    if isinstance(c, ast.BoolOp) and isinstance(c.op, ast.Or):
+      # `self is other or <field comparison>`: identical objects have equal fields
+      rest = [v for v in c.values if not (isinstance(v, ast.Compare) and len(v.ops) == 1 and isinstance(v.ops[0], ast.Is)
+                                          and {norm(v.left), norm(v.comparators[0])} == {a, b})]
+      if len(rest) == 1:
+        c = rest[0]
     if isinstance(c, ast.Compare) and len(c.ops) == 1 and isinstance(c.ops[0], ast.Eq):
       l, rr = norm(c.left), norm(c.comparators[0])
       if {l, rr} == {'dataclasses.asdict(%s)' % a, 'dataclasses.asdict(%s)' % b}:
